@@ -25,6 +25,8 @@ ALL_CFGS = ["default", "release", "fromstr", "demo"]
 # property id -> (module, configs for quick, configs for thorough)
 PROPS = {
     "C04": ("c04", ["default"], ALL_CFGS),
+    "C01": ("text", ["default"], ALL_CFGS),
+    "C07": ("text", ["default"], ALL_CFGS),
     "C16": ("orch", ["default"], ALL_CFGS),
     "C17": ("orch", ["default"], ALL_CFGS),
     "C18": ("orch", ["default"], ALL_CFGS),
